@@ -1,6 +1,7 @@
 (* Props/C01.v — the objective is never evaluated outside the box; neither is anything stored outside it. *)
 From Coq Require Import ZArith Bool List.
 From HV Require Import F64 Bounds GenCommon GenEquivCommon F64Facts BoundsFacts Ops OpsFacts Ord Select SelectFacts Hist HistFacts.
+From HV Require Import GenOps GenEquivOps.
 Import ListNotations.
 
 (* (a) concrete layer, on ALL binary64 values and every random draw: each operator's genes lie in the box.  The repair is the
@@ -59,3 +60,31 @@ Example C01_example :
   in_box1 (de_gene true (of_bits 0x3FE0000000000000) lo lo hi) lo hi = true /\
   scale_ok lo hi = true /\ in_box1 (scale_gene lo hi pred_one) lo hi = true.
 Proof. vm_compute. auto. Qed.
+
+(* ---------------------------------------------------------------- the per-gene arithmetic TRANSLATED from the current sea.py, de.py,
+   lhs_deme.py, sobol_deme.py and initializers.py (Gen/GenOps.v: numpy's elementwise expression as a binary64 function of one gene; random
+   draws are arguments) IS the operator model the theorems above are about *)
+Theorem C01_translated_gaussian x noise mask lo hi : gen_gaussian_gene x noise mask lo hi = gauss_full x noise mask lo hi.
+Proof. exact (gaussian_gene_eq x noise mask lo hi). Qed.
+Print Assumptions C01_translated_gaussian.
+Theorem C01_translated_uniform mask sample x : gen_uniform_gene mask sample x = uniform_gene mask sample x.
+Proof. exact (uniform_gene_eq mask sample x). Qed.
+Theorem C01_translated_arithmetic a x y lo hi : gen_arith_clip (gen_arith_first a x y) lo hi = arith_gene a x y lo hi.
+Proof. exact (arith_first_eq a x y lo hi). Qed.
+Theorem C01_translated_arithmetic_second a x y lo hi :
+  gen_arith_clip (gen_arith_second a x y) lo hi = crossover_gene (fadd (fmul (fsub fone a) x) (fmul a y)) lo hi.
+Proof. exact (arith_second_eq a x y lo hi). Qed.
+Theorem C01_translated_de take f r0 r1 r2 x lo hi :
+  gen_de_crossover_gene take (gen_de_donor_repair (gen_de_donor f r0 r1 r2) lo hi) x = de_full take f r0 r1 r2 x lo hi.
+Proof. exact (de_gene_eq take f r0 r1 r2 x lo hi). Qed.
+Print Assumptions C01_translated_de.
+Theorem C01_translated_de_dither take f r0 r1 r2 x lo hi :
+  gen_de_crossover_gene take (gen_de_dither_donor_repair (gen_de_dither_donor f r0 r1 r2) lo hi) x = de_full take f r0 r1 r2 x lo hi.
+Proof. exact (de_dither_gene_eq take f r0 r1 r2 x lo hi). Qed.
+Theorem C01_translated_shade take f x pb r0 ra lo hi :
+  gen_de_crossover_gene take (gen_pbest_repair (gen_pbest_donor f x pb r0 ra) lo hi) x = de_gene take (gen_pbest_donor f x pb r0 ra) x lo hi.
+Proof. exact (pbest_gene_eq take f x pb r0 ra lo hi). Qed.
+Theorem C01_translated_lhs_sobol lo hi s : gen_LHSDeme_scale lo hi s = scale_gene lo hi s /\ gen_SobolDeme_scale lo hi s = scale_gene lo hi s.
+Proof. exact (conj (lhs_scale_eq lo hi s) (sobol_scale_eq lo hi s)). Qed.
+Theorem C01_translated_sample_normal_test x lo hi : gen_in_bounds_gene x lo hi = in_box1 x lo hi.
+Proof. exact (in_bounds_gene_eq x lo hi). Qed.
